@@ -320,6 +320,12 @@ func c08cases(run *vlab.Run) []c08case {
 		}
 		cases = append(cases, c)
 	}
+	// stdout stalls for a moment while far more than the two 1000-slot result buffers pile up behind it
+	// (fixed cases: the seeded ones above only sometimes draw this combination)
+	for k, w := range []int{7, 100, 1000} {
+		cases = append(cases, c08case{N: 5000, Workers: w, PosPermille: 1000, ExitDelayMs: 300, StallAtLine: 3 + 20*k, StallMs: 40 + 10*k, Seed: rng.Uint64()})
+		cases = append(cases, c08case{N: 2001, Workers: w, PosPermille: 900, ErrPermille: 100, ExitDelayMs: 300, StallAtLine: 1, StallMs: 60, Seed: rng.Uint64()})
+	}
 	// an error sink so slow that a full error buffer outlasts the exit delay (100 records x 4-6 ms > 300 ms):
 	// the records still queued when the delay is over must be written all the same
 	for k := 0; k < 3; k++ {
